@@ -266,7 +266,8 @@ def main():
     try:
         if replay:
             payload = common.dec(json.load(open(replay if os.path.isabs(replay) else os.path.join(cwd, replay))))
-            r = KIND[cfg["kind"]]["replay"](pid, cfg, payload, workdir)
+            pk = payload.get("kind") if isinstance(payload, dict) else None
+            r = KIND[pk if pk in KIND else cfg["kind"]]["replay"](pid, cfg, payload, workdir)
             print("replay: %s: %s" % ("FAILS" if r["fails"] else "passes", r["why"]))
             return 1 if r["fails"] else 0
 
@@ -288,6 +289,9 @@ def main():
 
         # ---- 3. generated correspondence slice -------------------------------------------
         samples = KIND[cfg["kind"]]["slice"](pid, cfg, tier, seed, workdir, rep, stats, findings)
+        # additional slices of other kinds (their own models, generators and monitors)
+        for k in cfg.get("extra_kinds", ()):
+            samples = (samples or []) + (KIND[k]["slice"](pid, cfg, tier, seed, workdir, rep, stats, findings) or [])[:2]
     except Exception:  # noqa: BLE001
         tb = traceback.format_exc()
         rep.violation({"property": pid, "machinery_error": tb}, "no-failing-input-found")
@@ -305,6 +309,8 @@ def main():
             for extra in (1, 2):
                 stats["search_rounds_after_broken_proof"] += 1
                 KIND[cfg["kind"]]["slice"](pid, cfg, tier, seed + 7919 * extra, workdir, rep, stats, findings)
+                for k in cfg.get("extra_kinds", ()):
+                    KIND[k]["slice"](pid, cfg, tier, seed + 7919 * extra, workdir, rep, stats, findings)
                 if rep.violations:
                     break
         except Exception:  # noqa: BLE001
